@@ -343,7 +343,7 @@ def rewrite(ot, drops, where, extra=None):
 class Fn:
   def __init__(self, file, name, impl=None, emit_impl=None, ret="r", requires=(), ensures=(),
                loops=None, hints=(), extra=(), nth=0, sig_sub=(), contract_only=False, prefix="",
-               decreases=None, attrs=(), probe=True, rename=None, recommends=()):
+               decreases=None, attrs=(), probe=True, rename=None, recommends=(), safety_props=None):
     self.file, self.name, self.impl = file, name, impl
     self.emit_impl = emit_impl  # e.g. "impl ZmtpManualParser" ; None => free fn
     self.ret = ret
@@ -360,6 +360,7 @@ class Fn:
     self.probe = probe
     self.rename = rename
     self.recommends = list(recommends)
+    self.safety_props = list(safety_props) if safety_props else None
     self.contract_only = contract_only  # callee proved in another unit: signature + contract only (external_body)
     if contract_only:
       self.probe = False
@@ -653,7 +654,7 @@ def extract_fn(gen, f, probe=False):
   out.o.append(out.o[-1])
   gen.functions.append({"fn": qual, "file": f.file, "line": sigline,
                         "requires": len(req), "ensures": len(f.ensures),
-                        "loops_with_invariant": len(f.loops), "hints": len(f.hints)})
+                        "loops_with_invariant": len(f.loops), "hints": len(f.hints), "safety_props": f.safety_props})
   return out, qual
 
 
